@@ -574,6 +574,58 @@ fn scan_setters(repo: &str) -> Result<Vec<(String, String)>, String> {
     Ok(out)
 }
 
+/// `recover_account(name, cleartext)` stores a *caller-supplied* cleartext unchecked when `cleartext` is `Some`.
+/// Its callers (server/core) must pass `None` (a generated password), except the integration-test bootstrap.
+fn check_recover_callers(repo: &str) -> Result<Vec<String>, String> {
+    const ALLOWED_ARGS: &[&str] = &[
+        "name.as_str(),None",
+        "&itc.admin_user,Some(&itc.admin_password)",
+        "&itc.idm_admin_user,Some(&itc.idm_admin_password)",
+    ];
+    struct V(Vec<String>);
+    impl<'ast> Visit<'ast> for V {
+        fn visit_expr_method_call(&mut self, m: &'ast syn::ExprMethodCall) {
+            if m.method == "recover_account" {
+                self.0.push(m.args.iter().map(nsp).collect::<Vec<_>>().join(","));
+            }
+            syn::visit::visit_expr_method_call(self, m);
+        }
+        fn visit_macro(&mut self, m: &'ast syn::Macro) {
+            if let Ok(args) = m.parse_body_with(syn::punctuated::Punctuated::<syn::Expr, syn::Token![,]>::parse_terminated) {
+                for a in args.iter() {
+                    self.visit_expr(a);
+                }
+            }
+        }
+    }
+    let mut files = vec![];
+    rs_files(std::path::Path::new(&format!("{repo}/server/core/src")), &mut files);
+    rs_files(std::path::Path::new(&format!("{repo}/server/daemon/src")), &mut files);
+    let mut seen = vec![];
+    for p in &files {
+        let src = std::fs::read_to_string(p).map_err(|e| format!("{}: {e}", p.display()))?;
+        if !src.contains("recover_account(") {
+            continue;
+        }
+        let ast = syn::parse_file(&src).map_err(|e| format!("{}: parse error: {e}", p.display()))?;
+        let mut v = V(vec![]);
+        v.visit_file(&ast);
+        for a in v.0 {
+            if !ALLOWED_ARGS.contains(&a.as_str()) {
+                return Err(format!(
+                    "{}: recover_account({a}) passes a caller-chosen cleartext (or an unrecognised argument) to the unchecked recovery path",
+                    p.display()
+                ));
+            }
+            seen.push(format!("{}: recover_account({a})", p.strip_prefix(repo).unwrap_or(p).display()));
+        }
+    }
+    if seen.is_empty() {
+        return Err("no caller of recover_account found under server/core/src (update the C31 translator item)".into());
+    }
+    Ok(seen)
+}
+
 fn emit_gates(prefix: &str, g: &Gates, body: &mut String) {
     for s in &g.src {
         body.push_str(&format!("-- {prefix} {s}\n"));
@@ -635,6 +687,7 @@ fn pwquality_ops(repo: &str, out: &str) -> Result<String, String> {
         checked.push(check_setter(repo, s)?);
     }
     let paths = scan_setters(repo)?;
+    let recover_callers = check_recover_callers(repo)?;
 
     let mut body = String::from("namespace Kanidm.Gen.PwQuality\n");
     body.push_str("/-! Constants of libs/crypto/src/lib.rs. -/\n");
@@ -653,6 +706,10 @@ fn pwquality_ops(repo: &str, out: &str) -> Result<String, String> {
     body.push_str("Every non-test function under server/lib/src/{idm,plugins,server} that builds a credential from a cleartext:\n");
     for (f, why) in &paths {
         body.push_str(&format!("  * {f} — {why}\n"));
+    }
+    body.push_str("Callers of the unchecked `recover_account` (must pass `None` = generated password; `itc` = integration-test configuration):\n");
+    for c in &recover_callers {
+        body.push_str(&format!("  * {c}\n"));
     }
     body.push_str("-/\n");
     body.push_str(&format!("def checkedSetters : Nat := {}\n", checked.len()));
